@@ -288,6 +288,11 @@ class ApiMergeStoreHandler(NbdimeHandler, APIHandler):
 
         body = json.loads(escape.to_unicode(self.request.body))
         merged = body['merged']
+        if not (isinstance(merged, dict) and
+                isinstance(merged.get('nbformat'), int) and
+                isinstance(merged.get('cells', merged.get('worksheets')), list)):
+            # (nbformat would take any dict for a notebook of format 1)
+            raise web.HTTPError(400, 'The merge result to store is not a notebook.')
         merged_nb = nbformat.from_dict(merged)
 
         # Somehow store unsolved conflicts?
